@@ -233,6 +233,9 @@ def tokenize(src, lang):
         if is_quote and c == "'" and lx.sq_transpose and prev is not None and not sp and \
                 (prev.kind in ('num', 'id') or prev.text in (')', ']', '}', "'", ".'")):
             is_quote = False
+        if is_quote and lang == 'idl' and c == '"' and src[pos + 1:pos + 2].isdigit():
+            err('dquote_digit_is_octal_constant', f'{src[pos:pos + 20]!r}: in IDL a double quote followed '
+                                                  f'by a digit starts an octal constant, not a string')
         if is_quote:
             style = lx.dq if c == '"' else lx.sq
             j, out = pos + 1, []
@@ -429,14 +432,13 @@ class Parser:
             stmts.append(Stmt(node, t.line, self.terminator()))
 
     def note_empty_statement(self, t):
-        self.notes.append(f'maple:empty_statement: line {t.line}: a bare {t.text!r} (empty statement) '
-                          f'is assumed to be accepted')
+        self.notes.append(f'maple: a bare {t.text!r} (empty statement) is assumed to be accepted')
 
     def terminator(self, closers=()):
         t = self.toks[self.i]
         if t.kind in ('nl', 'eof'):
             if self.lang == 'maple' and t.kind == 'eof':
-                self.notes.append('maple:last_statement_without_terminator')
+                self.notes.append('maple: last statement without ; or : terminator accepted')
             return ''
         if t.kind == 'op' and t.text in STMT_SEPS[self.lang]:
             self.i += 1
@@ -652,8 +654,8 @@ class Parser:
                 self.parse_expr(0)
                 self.expect(';')
             elif self.at(';', ':'):
-                self.notes.append(f'maple:terminator_after_proc_header: line {t.line}: '
-                                  f'`proc(...)` directly followed by {self.peek().text!r} is assumed to be accepted')
+                self.notes.append(f'maple: `proc(...)` directly followed by {self.peek().text!r} '
+                                  f'(empty statement after the header) is assumed to be accepted')
                 self.next()
             while self.at_id('local', 'global', 'option', 'options', 'description'):
                 self.lim('proc_declarations')
@@ -1184,7 +1186,7 @@ class MatlabInterp(Interp):
             return self.constants[name]
         if name == 'end':
             self.lim('end_in_subscript')
-        if hasattr(self, 'b_' + name):
+        if getattr(self, 'b_' + name, None) is not None:
             return getattr(self, 'b_' + name)([])
         self.lim('unknown_name', name)
 
@@ -1250,7 +1252,7 @@ class MatlabInterp(Interp):
         _, f, args, br = node
         if f[0] == 'field' and f[1][0] == 'id' and f[1][1] not in env:
             name = f'{f[1][1]}_{f[2]}'
-            if hasattr(self, 'b_' + name):
+            if getattr(self, 'b_' + name, None) is not None:
                 return getattr(self, 'b_' + name)([self.ev(n, env) for _, n in args])
             self.lim('unknown_function', f'{f[1][1]}.{f[2]}')
         if f[0] == 'id' and f[1] not in env:
@@ -1267,6 +1269,35 @@ class MatlabInterp(Interp):
         self.rt('not_indexable', type(target).__name__)
 
     # -- semantics --------------------------------------------------------------
+    def arith(self, op, a, b):
+        """Scalar arithmetic with an integer-class operand stays in that class:
+        Matlab saturates (and rounds), Scilab wraps around."""
+        ints = [x for x in (a, b) if isinstance(x, np.integer)]
+        if not ints or not (is_scalar(a) and is_scalar(b)) or op not in ('+', '-', '*', '/', '.*', './'):
+            return super().arith(op, a, b)
+        dt = ints[0].dtype
+        if len(ints) == 2 and ints[1].dtype != dt:
+            if self.family == 'matlab':
+                self.rt('integers_of_different_classes', f'{dt} {op} {ints[1].dtype}')
+            self.lim('mixed_integer_classes')
+        if any(isinstance(x, (complex, np.complexfloating)) for x in (a, b)):
+            self.lim('complex_integer_arithmetic')
+        from fractions import Fraction
+        x, y = (Fraction(int(v)) if isinstance(v, (np.integer, int)) and not isinstance(v, bool)
+                else Fraction(float(v)) if np.isfinite(float(v)) else None for v in (a, b))
+        if x is None or y is None or (op in ('/', './') and y == 0):
+            self.lim('non_finite_integer_arithmetic')
+        r = x + y if op == '+' else x - y if op == '-' else x * y if op in ('*', '.*') else x / y
+        n = int(abs(r) + Fraction(1, 2)) * (1 if r >= 0 else -1)       # round half away from zero
+        info = np.iinfo(dt)
+        if not info.min <= n <= info.max:
+            if self.family == 'matlab':
+                n = min(max(n, info.min), info.max)                     # saturation
+            else:
+                self.note('scilab: integer-type arithmetic overflow taken to wrap around')
+                n = (n - info.min) % (info.max - info.min + 1) + info.min
+        return dt.type(n)
+
     def arr(self, v):
         if isinstance(v, np.ndarray):
             return _min2d(v)
@@ -1308,7 +1339,7 @@ class MatlabInterp(Interp):
                 return flat.reshape(-1, 1)
             res, scal = self.take(flat, [s], what)
             if scal[0]:
-                return res[0].item()
+                return self.element(res[0])
             src = vals[0]
             if isinstance(src, np.ndarray) and not (1 in src.shape and src.ndim == 2):
                 return _min2d(res.reshape(src.shape, order='F'))
@@ -1327,8 +1358,12 @@ class MatlabInterp(Interp):
         subs = [self.positions(v, d, f'subscript {k + 1}') for k, (v, d) in enumerate(zip(vals, dims))]
         res, scal = self.take(B, subs, what)
         if all(scal):
-            return res.reshape(-1)[0].item()
+            return self.element(res.reshape(-1)[0])
         return _min2d(res)
+
+    @staticmethod
+    def element(x):
+        return x if isinstance(x, np.integer) else x.item()     # integer classes keep their class
 
     # -- builtins -----------------------------------------------------------------
     def handle(self, v, fn):
@@ -1365,8 +1400,9 @@ class MatlabInterp(Interp):
         if a[0] == 'all':
             self.files.clear()
             return 0
-        self.handle(a[0], 'fclose')
-        del self.files[np.asarray(a[0]).reshape(-1)[0].item() if not isinstance(a[0], (int, float)) else a[0]]
+        fh = self.handle(a[0], 'fclose')
+        for k in [k for k, v in self.files.items() if v is fh]:
+            del self.files[k]
         return 0
 
     def b_fseek(self, a):
@@ -1612,6 +1648,8 @@ class ScilabInterp(MatlabInterp):
         code = {'c': 'i1', 's': 'i2', 'i': 'i4', 'l': 'i8', 'f': 'f4', 'd': 'f8'}[t[-1]]
         if t[0] == 'u':
             code = 'u' + code[1]
+        if t[-1] == 'l':
+            self.note("scilab: binary type 'l' taken as 8 bytes (Scilab >= 6; it was 4 bytes in Scilab 5)")
         data = self.read(fh, code, n, {'l': '<', 'b': '>', '': '='}[e])
         if data.size < n:
             self.note(f'scilab: {fn} asked for {n} elements but the file holds {data.size}')
@@ -1962,3 +2000,1096 @@ class RInterp(Interp):
 
     def b_matrix(self, a):
         self.lim('matrix_function')
+
+
+# ---------------------------------------------------------------------------
+# Julia (flavours: julia_ver0 = before 1.0, julia_ver1 / julia = 1.x)
+# ---------------------------------------------------------------------------
+
+_JL_TYPES = {'Int8': 'i1', 'Int16': 'i2', 'Int32': 'i4', 'Int64': 'i8', 'Int': 'i8',
+             'UInt8': 'u1', 'UInt16': 'u2', 'UInt32': 'u4', 'UInt64': 'u8', 'UInt': 'u8',
+             'Float16': 'f2', 'Float32': 'f4', 'Float64': 'f8', 'ComplexF32': 'c8',
+             'ComplexF64': 'c16', 'Complex64': None, 'Complex128': None}
+_JL_TYPECONS = {'Array': None, 'Vector': 1, 'Matrix': 2, 'Complex': 'complex'}
+_JL_BUILTINS = ('open', 'close', 'read', 'read!', 'map', 'ltoh', 'ntoh', 'htol', 'hton', 'bswap',
+                'identity', 'reshape', 'size', 'length')
+_UNDEF = ('undef',)
+
+
+def _jl_scalar_only(name):
+    def b(self, a):
+        if len(a) != 1:
+            self.bad(f'{name}_bad_arguments')
+        if isinstance(a[0], np.ndarray):
+            self.bad(f'{name}_of_array', f'{name} has no method for arrays; use map or broadcasting')
+        self.lim('scalar_byte_swap')
+    return b
+
+
+class JuliaInterp(Interp):
+    lang = 'julia'
+    family = 'julia'
+    constants = {'true': True, 'false': False, 'nothing': None, 'pi': np.pi, 'Inf': float('inf')}
+
+    def old(self):
+        return self.lang == 'julia_ver0'
+
+    def ev_id(self, node, env):
+        name = node[1]
+        if name in env:
+            return env[name]
+        if name in _JL_TYPES:
+            code = _JL_TYPES[name]
+            if code is None:        # Complex64/Complex128 were the pre-0.7 names
+                if not self.old():
+                    self.bad('unknown_type', f'{name} does not exist in Julia 1.x')
+                code = {'Complex64': 'c8', 'Complex128': 'c16'}[name]
+            elif name in ('ComplexF32', 'ComplexF64') and self.old():
+                self.note(f'julia: {name} exists only from Julia 0.7 on')
+            return ('T', code)
+        if name in _JL_TYPECONS:
+            return ('TC', name)
+        if name == 'undef':
+            return _UNDEF
+        if name in _JL_BUILTINS:
+            return ('B', name)
+        if name in self.constants:
+            return self.constants[name]
+        if name == 'end':
+            self.lim('end_in_subscript')
+        if re.fullmatch(r'(U?Int|Float|ComplexF|Complex)\d+', name):
+            self.bad('unknown_type', name)
+        self.lim('unknown_name', name)
+
+    def ev_tuple(self, node, env):
+        return tuple(self.ev(n, env) for n in node[1])
+
+    def ev_splat(self, node, env):
+        return ('splat', self.ev(node[1], env))
+
+    def ev_list(self, node, env):
+        vals = [self.ev(n, env) for n in node[1][0]]
+        if not all(is_scalar(v) for v in vals):
+            self.lim('vector_literal_element')
+        return np.array(vals) if vals else np.empty(0)
+
+    def ev_bin(self, node, env):
+        op = node[1]
+        if op in ('->', '::'):
+            self.lim('operator', op)
+        a, b = self.ev(node[2], env), self.ev(node[3], env)
+        if op == ':':
+            if isinstance(a, Rng):
+                self.lim('stepped_range')
+            return Rng(a, b)
+        return self.arith(op, a, b)
+
+    def ev_func(self, node, env):
+        fn = Func(node[2], node[3], self.env, 'julia', node[1])
+        env[node[1]] = fn
+        return fn
+
+    def ev_return(self, node, env):
+        raise _Return(self.ev(node[1], env))
+
+    def ev_assign(self, node, env):
+        _, lhs, rhs, op = node
+        if lhs[0] == 'app' and lhs[3] == '(' and lhs[1][0] == 'id':      # f(k) = expr
+            params = [Parser.param(None, n) if n[0] == 'id' else (None, None) for _, n in lhs[2]]
+            if any(p[0] is None for p in params):
+                self.lim('short_function_definition')
+            env[lhs[1][1]] = Func(params, [Stmt(rhs, 0, '')], self.env, 'julia', lhs[1][1])
+            return env[lhs[1][1]]
+        if lhs[0] != 'id':
+            self.lim('indexed_or_destructuring_assignment')
+        v = self.ev(rhs, env)
+        env[lhs[1]] = v
+        return v
+
+    def args(self, args, env):
+        out = []
+        for kw, n in args:
+            v = self.ev(n, env)
+            if isinstance(v, tuple) and v and v[0] == 'splat':
+                if not isinstance(v[1], (tuple, np.ndarray)):
+                    self.lim('splat_of', type(v[1]).__name__)
+                out.extend(v[1])
+            else:
+                out.append(v)
+        return out
+
+    def ev_app(self, node, env):
+        _, f, args, br = node
+        target = self.ev(f, env)
+        vals = self.args(args, env)
+        if br == '{':
+            return self.curly(target, vals)
+        if br == '[':
+            if not isinstance(target, np.ndarray):
+                self.lim('indexing_of', type(target).__name__)
+            return self.index(target, vals, f[1] if f[0] == 'id' else 'value')
+        if isinstance(target, Func):
+            return self.call(target, vals)
+        if isinstance(target, tuple) and target and target[0] == 'B':
+            return getattr(self, 'b_' + target[1].replace('!', '_bang'))(vals)
+        if isinstance(target, tuple) and target and target[0] == 'ArrayT':
+            return self.construct(target, vals)
+        if isinstance(target, tuple) and target and target[0] == 'T':
+            if len(vals) == 1 and is_scalar(vals[0]):
+                return native(target[1]).type(vals[0]).item()
+            self.lim('type_conversion_call')
+        if isinstance(target, tuple) and target and target[0] == 'TC':
+            self.lim('untyped_array_constructor', target[1])
+        self.rt('not_callable', type(target).__name__)
+
+    def curly(self, target, vals):
+        if not (isinstance(target, tuple) and target and target[0] == 'TC'):
+            self.lim('type_parameters_on', repr(target))
+        kind = _JL_TYPECONS[target[1]]
+        if not vals or not (isinstance(vals[0], tuple) and vals[0] and vals[0][0] == 'T'):
+            self.bad('bad_type_parameter', f'{target[1]}{{...}}')
+        code = vals[0][1]
+        if kind == 'complex':
+            if len(vals) != 1:
+                self.bad('bad_type_parameter', 'Complex takes one parameter')
+            if code not in ('f4', 'f8'):
+                self.lim('complex_element_type', code)
+            return ('T', 'c8' if code == 'f4' else 'c16')
+        nd = kind
+        if len(vals) == 2 and kind is None:
+            nd = self.integer(vals[1], 'Array{T,N}')
+        elif len(vals) != 1:
+            self.bad('bad_type_parameter', f'{target[1]} with {len(vals)} parameters')
+        return ('ArrayT', code, nd)
+
+    def dims(self, vals, what):
+        if len(vals) == 1 and isinstance(vals[0], tuple):
+            vals = list(vals[0])
+        dims = []
+        for v in vals:
+            if isinstance(v, (float, str)) or not is_scalar(v):
+                self.bad(f'{what}_bad_dims', repr(v))
+            dims.append(self.integer(v, what + ' dims'))
+        if any(d < 0 for d in dims):
+            self.rt(f'{what}_negative_dims', repr(dims))
+        return dims
+
+    def construct(self, t, vals):
+        if not vals or vals[0] is not _UNDEF:
+            if self.old() and vals and vals[0] is not None:
+                self.note('julia: Array{T}(dims...) without undef (pre-0.7 form)')
+                vals = [_UNDEF] + vals
+            else:
+                self.lim('array_constructor_without_undef')
+        dims = self.dims(vals[1:], 'array_constructor')
+        if t[2] is not None and t[2] != len(dims):
+            self.bad('array_constructor_rank_mismatch', f'N={t[2]} but {len(dims)} dims')
+        return np.zeros(dims, dtype=native(t[1]))
+
+    def call(self, fn, vals):
+        if len(vals) != len(fn.params):
+            self.rt('no_matching_method', f'{fn.name} with {len(vals)} arguments')
+        for (p, typ), v in zip(fn.params, vals):
+            if typ and typ[0] == 'id' and typ[1] in ('Int', 'Integer', 'Int64') and \
+                    (isinstance(v, bool) or not isinstance(v, int)):
+                self.rt('no_matching_method', f'{fn.name}({p}::{typ[1]})')
+        local = ChainMap({p[0]: v for p, v in zip(fn.params, vals)}, fn.env)
+        try:
+            val = None
+            for s in fn.body:
+                val = self.exec(s, local)
+            return val
+        except _Return as r:
+            return r.value
+
+    def index(self, A, vals, what):
+        m = len(vals)
+        if m == 0:
+            self.lim('empty_subscript')
+        for v in vals:
+            if isinstance(v, float):
+                self.rt('invalid_index_type', repr(v))
+        if m == 1 and A.ndim != 1:
+            B = A.reshape(-1, order='F')
+        elif m < A.ndim:
+            if any(d != 1 for d in A.shape[m:]):
+                self.rt('bounds_error', f'{m} subscripts for {A.ndim}-dimensional {what}')
+            B = A.reshape(A.shape[:m], order='F')
+        else:
+            B = A.reshape(list(A.shape) + [1] * (m - A.ndim), order='F')
+        subs = [self.positions(v, d, f'subscript {k + 1}') for k, (v, d) in enumerate(zip(vals, B.shape))]
+        res, scal = self.take(B, subs, what)
+        if all(scal):
+            return res.reshape(-1)[0].item()
+        return res.reshape([d for d, s in zip(res.shape, scal) if not s], order='F')
+
+    # -- builtins ---------------------------------------------------------------
+    def io(self, v, fn):
+        if not isinstance(v, FileH):
+            self.bad(f'{fn}_bad_stream', f'first argument must be an IO stream, got {v!r}')
+        if id(v) not in self.files:
+            self.rt('stream_closed', fn)
+        return v
+
+    def b_open(self, a):
+        if not 1 <= len(a) <= 2 or not all(isinstance(x, str) for x in a):
+            self.bad('open_bad_arguments', repr(a))
+        mode = a[1] if len(a) == 2 else 'r'
+        if mode != 'r':
+            if mode in ('w', 'a', 'r+', 'w+', 'a+'):
+                self.lim('open_for_writing', mode)
+            self.bad('open_bad_mode', repr(mode))
+        fh = self.load(a[0], '=', mode)
+        self.files[id(fh)] = fh
+        return fh
+
+    def b_close(self, a):
+        if len(a) != 1:
+            self.bad('close_bad_arguments')
+        if not isinstance(a[0], FileH):
+            self.bad('close_bad_stream', repr(a[0]))
+        self.files.pop(id(a[0]), None)       # closing twice is harmless in Julia
+        return None
+
+    def b_read_bang(self, a):
+        if len(a) != 2:
+            self.bad('read!_bad_arguments', f'{len(a)} arguments')
+        fh = self.io(a[0], 'read!')
+        if not isinstance(a[1], np.ndarray):
+            self.bad('read!_bad_destination', repr(a[1]))
+        A = a[1]
+        data = self.read(fh, A.dtype.str[1:], A.size, '=')
+        if data.size < A.size:
+            self.rt('eof_error', f'read! needs {A.size} elements, file has {data.size}')
+        return data.reshape(A.shape, order='F')
+
+    def b_read(self, a):
+        if not a:
+            self.bad('read_bad_arguments')
+        fh = self.io(a[0], 'read')
+        if len(a) == 1:
+            return self.read(fh, 'u1', None, '=')
+        if isinstance(a[1], np.ndarray):
+            self.bad('read_bad_type_argument', 'read(io, A::Array) has no method; read! fills an array')
+        if not (isinstance(a[1], tuple) and a[1] and a[1][0] == 'T'):
+            self.lim('read_form', repr(a[1])[:60])
+        code = a[1][1]
+        if len(a) == 2:
+            data = self.read(fh, code, 1, '=')
+            if not data.size:
+                self.rt('eof_error', 'read')
+            return data[0].item()
+        if not self.old():
+            self.bad('read_with_dims_removed', 'read(io, T, dims) does not exist in Julia 1.x; use read!')
+        dims = self.dims(a[2:], 'read')
+        data = self.read(fh, code, int(np.prod(dims)), '=')
+        if data.size < int(np.prod(dims)):
+            self.rt('eof_error', f'read needs {int(np.prod(dims))} elements, file has {data.size}')
+        return data.reshape(dims, order='F')
+
+    def swap(self, name, x):
+        if name in ('ltoh', 'htol', 'identity'):
+            return x                        # little-endian host
+        if isinstance(x, np.ndarray):
+            if x.dtype.kind == 'c':
+                self.note(f'julia: {name}/bswap on Complex elements (no bswap method for Complex is '
+                          f'known; per-component swap assumed)')
+            return x.byteswap()
+        self.lim('scalar_byte_swap')
+
+    def b_map(self, a):
+        if len(a) != 2:
+            self.lim('map_arity', str(len(a)))
+        f, A = a
+        if not isinstance(A, np.ndarray):
+            self.lim('map_over', type(A).__name__)
+        if isinstance(f, tuple) and f and f[0] == 'B' and f[1] in ('ltoh', 'ntoh', 'htol', 'hton',
+                                                                   'bswap', 'identity'):
+            return self.swap(f[1], A)
+        self.lim('map_function', repr(f))
+
+    b_ltoh = _jl_scalar_only('ltoh')
+    b_ntoh = _jl_scalar_only('ntoh')
+    b_htol = _jl_scalar_only('htol')
+    b_hton = _jl_scalar_only('hton')
+    b_bswap = _jl_scalar_only('bswap')
+
+    def b_identity(self, a):
+        return a[0]
+
+    def b_reshape(self, a):
+        if len(a) < 2 or not isinstance(a[0], np.ndarray):
+            self.bad('reshape_bad_arguments')
+        dims = self.dims(a[1:], 'reshape')
+        if int(np.prod(dims)) != a[0].size:
+            self.rt('dimension_mismatch', f'{a[0].size} elements into {dims}')
+        return a[0].reshape(-1, order='F').reshape(dims, order='F')
+
+    def b_size(self, a):
+        return tuple(int(d) for d in a[0].shape)
+
+    def b_length(self, a):
+        return int(np.size(a[0]))
+
+
+# ---------------------------------------------------------------------------
+# IDL / GDL
+# ---------------------------------------------------------------------------
+
+_IDL_TYPES = {1: 'u1', 2: 'i2', 3: 'i4', 4: 'f4', 5: 'f8', 6: 'c8', 9: 'c16', 12: 'u2', 13: 'u4',
+              14: 'i8', 15: 'u8'}
+
+
+def _strip_trailing(a):
+    shape = list(a.shape)
+    while len(shape) > 1 and shape[-1] == 1:
+        shape.pop()
+    return a.reshape(shape, order='F')
+
+
+class IdlInterp(Interp):
+    lang = family = 'idl'
+    origin = 0
+
+    def ev_id(self, node, env):
+        name = node[1]
+        if name in env:
+            return env[name]
+        if name == '!null':
+            return None
+        self.lim('unknown_name', name)
+
+    def ev_list(self, node, env):
+        vals = [self.ev(n, env) for n in node[1][0]]
+        if not vals:
+            self.note('idl: `[]` (== !NULL) requires IDL >= 8.0')
+            return None
+        if not all(is_scalar(v) for v in vals):
+            self.lim('array_concatenation')
+        return np.array(vals)
+
+    def ev_bin(self, node, env):
+        op = node[1]
+        a = self.ev(node[2], env)
+        b = self.ev(node[3], env)
+        if op == ':':
+            return Rng(a, b)
+        r = self.arith(op, a, b)
+        return int(r) if isinstance(r, (bool, np.bool_)) else r
+
+    def ev_if(self, node, env):
+        c = self.ev(node[1], env)
+        if isinstance(c, np.ndarray):
+            if c.size != 1:
+                self.rt('if_condition_not_scalar')
+            c = c.reshape(-1)[0].item()
+        if isinstance(c, str) or c is None:
+            self.lim('if_condition_type')
+        true = bool(c & 1) if isinstance(c, int) else bool(c)     # integers: lowest bit decides
+        if true:
+            return self.ev(node[2], env)
+        if node[3] is not None:
+            return self.ev(node[3], env)
+
+    def ev_assign(self, node, env):
+        _, lhs, rhs, _ = node
+        if lhs[0] != 'id':
+            self.lim('indexed_assignment')
+        if lhs[1].startswith('!'):
+            self.lim('system_variable_assignment')
+        env[lhs[1]] = self.ev(rhs, env)
+
+    def ev_app(self, node, env):
+        _, f, args, br = node
+        if f[0] == 'id' and f[1] not in env and br == '(':
+            meth = getattr(self, 'b_' + f[1], None)
+            if meth is None:
+                self.lim('unknown_function', f[1])
+            return meth([(kw, self.ev(n, env)) for kw, n in args])
+        target = self.ev(f, env)
+        if br == '(':
+            self.note('idl: array subscripted with parentheses (obsolete syntax)')
+        if any(kw for kw, _ in args):
+            self.bad('keyword_in_subscript')
+        if target is None:
+            self.rt('subscript_of_null')
+        if not isinstance(target, np.ndarray):
+            self.lim('subscript_of_scalar')
+        return self.index(target, [self.ev(n, env) for _, n in args], f[1] if f[0] == 'id' else 'value')
+
+    def range_positions(self, r, n):
+        a, b = self.range_ends(r)
+        if a is ALLV:
+            self.lim('open_range')
+        if b is ALLV:
+            b = n - 1
+        if a < 0 or b < 0:
+            self.note('idl: negative subscripts count from the end (IDL >= 8.0)')
+            a, b = (a + n if a < 0 else a), (b + n if b < 0 else b)
+        if a > b:
+            self.rt('illegal_subscript_range', f'{a}:{b}')
+        return np.arange(a, b + 1, dtype=np.int64)
+
+    def index(self, A, vals, what):
+        m = len(vals)
+        if m == 0:
+            self.bad('empty_subscript')
+        if m > 8:
+            self.bad('too_many_subscripts')
+        if m == 1 and A.ndim > 1:
+            B = A.reshape(-1, order='F')
+        elif m < A.ndim:
+            self.note('idl: fewer subscripts than dimensions; omitted trailing subscripts taken as 0')
+            vals = list(vals) + [0] * (A.ndim - m)
+            B = A
+        else:
+            B = A.reshape(list(A.shape) + [1] * (m - A.ndim), order='F')
+        subs = []
+        for k, (v, d) in enumerate(zip(vals, B.shape)):
+            p = self.positions(v, d, f'subscript {k + 1}')
+            if isinstance(p, int) and p < 0:
+                self.note('idl: negative subscripts count from the end (IDL >= 8.0)')
+                p += d
+            if isinstance(p, np.ndarray) and not isinstance(v, Rng):
+                self.lim('array_subscript')
+            subs.append(p)
+        res, scal = self.take(B, subs, what)
+        if all(scal):
+            return res.reshape(-1)[0].item()
+        return _strip_trailing(res)
+
+    def b_read_binary(self, a):
+        known = ('data_type', 'data_dims', 'endian', 'data_start', 'template')
+        pos = [v for kw, v in a if kw is None]
+        kws = {}
+        for kw, v in a:
+            if kw is None:
+                continue
+            cands = [k for k in known if k == kw] or [k for k in known if k.startswith(kw)]
+            if len(cands) != 1 or cands[0] in kws:
+                self.bad('read_binary_bad_keyword', kw)
+            kws[cands[0]] = v
+        if len(pos) != 1:
+            self.bad('read_binary_bad_arguments', f'{len(pos)} positional arguments')
+        if not isinstance(pos[0], str):
+            self.lim('read_binary_from_unit')
+        if 'template' in kws:
+            self.lim('read_binary_template')
+        tcode = self.integer(kws.get('data_type', 1), 'data_type')
+        if tcode not in _IDL_TYPES:
+            self.bad('read_binary_bad_data_type', f'type code {tcode} is not a numeric IDL type')
+        order = '='
+        if 'endian' in kws:
+            e = kws['endian']
+            if not isinstance(e, str) or e.lower() not in ('big', 'little', 'native'):
+                self.bad('read_binary_bad_endian', repr(e))
+            if e != e.lower():
+                self.note('idl: ENDIAN value given in upper/mixed case')
+            order = {'big': '>', 'little': '<', 'native': '='}[e.lower()]
+        fh = self.load(pos[0], order)
+        fh.pos = self.integer(kws.get('data_start', 0), 'data_start')
+        code = _IDL_TYPES[tcode]
+        if 'data_dims' not in kws:
+            return self.read(fh, code, None, order)
+        dd = kws['data_dims']
+        dims = [self.integer(x, 'data_dims') for x in np.atleast_1d(np.asarray(dd)).reshape(-1)]
+        if len(dims) > 8 or any(d < 0 for d in dims):
+            self.bad('read_binary_bad_data_dims', repr(dims))
+        if is_scalar(dd) and dims == [0]:
+            data = self.read(fh, code, 1, order)
+            if not data.size:
+                self.rt('end_of_file')
+            return data[0].item()
+        if 0 in dims:
+            self.lim('read_binary_zero_extent')
+        total = int(np.prod(dims))
+        data = self.read(fh, code, total, order)
+        if data.size < total:
+            self.rt('end_of_file', f'read_binary needs {total} elements, file has {data.size}')
+        return _strip_trailing(data.reshape(dims, order='F'))
+
+
+# ---------------------------------------------------------------------------
+# Mathematica
+# ---------------------------------------------------------------------------
+
+@dataclass(frozen=True)
+class Sym:
+    name: str
+
+
+@dataclass
+class Rule:
+    lhs: object
+    rhs: object
+
+
+_MMA_TYPES = {'Byte': 'u1', 'Integer8': 'i1', 'Integer16': 'i2', 'Integer32': 'i4', 'Integer64': 'i8',
+              'UnsignedInteger8': 'u1', 'UnsignedInteger16': 'u2', 'UnsignedInteger32': 'u4',
+              'UnsignedInteger64': 'u8', 'Real32': 'f4', 'Real64': 'f8', 'Complex64': 'c8',
+              'Complex128': 'c16'}
+_MMA_TYPES_UNMODELLED = ('Integer24', 'Integer128', 'UnsignedInteger24', 'UnsignedInteger128',
+                         'Real128', 'Complex256', 'Character8', 'Character16', 'Character32',
+                         'TerminatedString')
+_MMA_WIDE = {'i': np.int64, 'u': np.uint64, 'f': np.float64, 'c': np.complex128}
+_UNSET = ('unset',)
+
+
+class MathematicaInterp(Interp):
+    lang = family = 'mathematica'
+    constants = {'True': True, 'False': False, 'Null': None, 'Pi': np.pi}
+
+    def __init__(self, cwd):
+        super().__init__(cwd)
+        self.env = ChainMap({})
+
+    def ev_id(self, node, env):
+        name = node[1]
+        if name in env and env[name] is not _UNSET:
+            return env[name]
+        return self.constants.get(name, Sym(name))
+
+    def ev_list(self, node, env):
+        vals = [self.ev(n, env) for n in node[1][0]]
+        if not vals:
+            return np.empty((0,))
+        if all(is_scalar(v) for v in vals):
+            return np.array(vals)
+        if all(isinstance(v, np.ndarray) for v in vals) and len({v.shape for v in vals}) == 1:
+            return np.stack(vals)
+        self.lim('non_rectangular_or_symbolic_list')
+
+    def ev_pattern(self, node, env):
+        self.lim('pattern_outside_definition')
+
+    def ev_bin(self, node, env):
+        op = node[1]
+        if op == ';':
+            self.ev(node[2], env)
+            return self.ev(node[3], env)
+        if op == '?':
+            self.lim('pattern_test_outside_definition')
+        a, b = self.ev(node[2], env), self.ev(node[3], env)
+        if op == '->':
+            return Rule(a, b)
+        if op == ';;':
+            return Rng(a, b)
+        if isinstance(a, Sym) or isinstance(b, Sym):
+            self.rt('symbolic_operand', f'{a!r} {op} {b!r}: an undefined symbol takes part in arithmetic')
+        return self.arith(op, a, b)
+
+    def assign_name(self, env, name, v):
+        for m in env.maps:
+            if name in m:
+                m[name] = v
+                return
+        env.maps[-1][name] = v
+
+    def ev_assign(self, node, env):
+        _, lhs, rhs, op = node
+        if lhs[0] == 'app' and lhs[3] == '[' and lhs[1][0] == 'id':
+            params = [Parser.param(None, n) if n[0] in ('pattern', 'bin') else None for _, n in lhs[2]]
+            if any(p is None for p in params):
+                self.lim('definition_with_literal_arguments')
+            fn = Func(params, [Stmt(rhs, 0, '')], self.env, 'mma', lhs[1][1])
+            self.assign_name(env, lhs[1][1], fn)
+            return None if op == ':=' else fn
+        if lhs[0] != 'id':
+            self.lim('assignment_target', lhs[0])
+        if op == ':=':
+            self.lim('delayed_own_value')
+        v = self.ev(rhs, env)
+        self.assign_name(env, lhs[1], v)
+        return v
+
+    def ev_app(self, node, env):
+        _, f, args, br = node
+        if br == '[[':
+            target = self.ev(f, env)
+            return self.part(target, [self.ev(n, env) for _, n in args], f[1] if f[0] == 'id' else 'expr')
+        if f[0] != 'id':
+            self.lim('compound_head')
+        name = f[1]
+        if name == 'Module':
+            return self.module(args, env)
+        if name in env and isinstance(env[name], Func):
+            return self.call(env[name], [self.ev(n, env) for _, n in args])
+        meth = getattr(self, 'b_' + name, None)
+        if meth is None:
+            self.lim('unknown_function', name)
+        return meth([self.ev(n, env) for _, n in args])
+
+    def module(self, args, env):
+        if len(args) != 2 or args[0][1][0] != 'list':
+            self.bad('module_bad_arguments')
+        local = {}
+        for n in args[0][1][1][0]:
+            if n[0] == 'id':
+                local[n[1]] = _UNSET
+            elif n[0] == 'assign' and n[1][0] == 'id':
+                local[n[1][1]] = self.ev(n[2], env)
+            else:
+                self.bad('module_bad_local_variable', repr(n))
+        return self.ev(args[1][1], ChainMap(local, *env.maps))
+
+    def call(self, fn, vals):
+        if len(vals) != len(fn.params):
+            self.rt('no_matching_definition', f'{fn.name} with {len(vals)} arguments stays unevaluated')
+        for (name, pat), v in zip(fn.params, vals):
+            head = pat[2] if pat[0] == 'pattern' else pat[2][2]
+            test = pat[3][1] if pat[0] == 'bin' and pat[3][0] == 'id' else None
+            if pat[0] == 'bin' and test is None:
+                self.lim('pattern_test')
+            isint = isinstance(v, int) and not isinstance(v, bool)
+            ok = True
+            if head is not None:
+                ok = {'Integer': isint, 'Real': isinstance(v, float),
+                      'List': isinstance(v, np.ndarray)}.get(head)
+            if ok and test is not None:
+                ok = {'IntegerQ': isint, 'NumberQ': is_scalar(v), 'NumericQ': is_scalar(v),
+                      'ListQ': isinstance(v, np.ndarray)}.get(test)
+            if ok is None:
+                self.lim('pattern_head_or_test', f'{head or test}')
+            if not ok:
+                self.rt('no_matching_definition', f'{fn.name}[{v!r}] stays unevaluated')
+        local = ChainMap({p[0]: v for p, v in zip(fn.params, vals)}, *self.env.maps)
+        return self.ev(fn.body[0].node, local)
+
+    def part(self, x, specs, what):
+        if not isinstance(x, np.ndarray):
+            self.rt('part_of_atom', f'{what} is not a list')
+        if len(specs) > x.ndim:
+            self.rt('part_deeper_than_object', f'{len(specs)} part specifications for depth {x.ndim}')
+        subs = []
+        for s, n in zip(specs, x.shape):
+            if isinstance(s, Sym):
+                if s.name != 'All':
+                    self.rt('symbolic_part_specification', s.name)
+                subs.append(ALLV)
+            elif isinstance(s, Rng):
+                a, b = (n if e is Sym('All') else e for e in (s.a, s.b))
+                if isinstance(a, Sym) or isinstance(b, Sym):
+                    self.rt('symbolic_part_specification', repr(s))
+                a, b = self.range_ends(Rng(a, b))
+                a, b = (a + n + 1 if a < 0 else a), (b + n + 1 if b < 0 else b)
+                if a < 1 or b > n or a > b + 1:
+                    self.rt('cannot_take_positions', f'{a} through {b} in {what} of length {n}')
+                if b == 0:
+                    self.note('mathematica: Part with Span a;;0 is taken to give {} like Take[list,{1,0}]')
+                subs.append(np.arange(a, b + 1, dtype=np.int64))
+            else:
+                p = self.positions(s, n)
+                if isinstance(p, np.ndarray):
+                    self.lim('list_part_specification')
+                if p == 0:
+                    self.lim('part_zero_is_head')
+                subs.append(p + n + 1 if p < 0 else p)
+        subs += [ALLV] * (x.ndim - len(subs))
+        res, scal = self.take(x, subs, what)
+        if all(scal):
+            return res.reshape(-1)[0].item()
+        res = res.reshape([d for d, s in zip(res.shape, scal) if not s])
+        return np.empty((0,), res.dtype) if res.size == 0 and res.shape[0] == 0 else res
+
+    # -- builtins -----------------------------------------------------------------
+    def b_BinaryReadList(self, a):
+        if not a or not isinstance(a[0], str):
+            self.bad('binaryreadlist_bad_file', repr(a[:1]))
+        pos = [v for v in a[1:] if not isinstance(v, Rule)]
+        if any(isinstance(v, Rule) for v in a[1:len(pos) + 1]):
+            self.bad('binaryreadlist_option_before_argument')
+        typ = pos[0] if pos else 'Byte'
+        if isinstance(typ, np.ndarray) or not isinstance(typ, str):
+            self.lim('binaryreadlist_type', repr(typ))
+        if typ not in _MMA_TYPES:
+            if typ in _MMA_TYPES_UNMODELLED:
+                self.lim('binaryreadlist_type', typ)
+            self.bad('unknown_type', f'{typ!r} is not a BinaryRead type')
+        count = self.integer(pos[1], 'BinaryReadList n') if len(pos) > 1 else None
+        if len(pos) > 2:
+            self.bad('binaryreadlist_too_many_arguments')
+        order = '<'
+        for r in a[1:]:
+            if not isinstance(r, Rule):
+                continue
+            if r.lhs != Sym('ByteOrdering'):
+                self.lim('binaryreadlist_option', repr(r.lhs))
+            if isinstance(r.rhs, bool) or r.rhs not in (1, -1):
+                self.bad('bad_byte_ordering', f'ByteOrdering -> {r.rhs!r}')
+            order = '>' if r.rhs == 1 else '<'
+        fh = self.load(a[0], order)
+        code = _MMA_TYPES[typ]
+        data = self.read(fh, code, count, order)
+        if count is None and (len(fh.data) - fh.pos):
+            self.note('mathematica: trailing bytes that do not fill an element are ignored')
+        return data.astype(_MMA_WIDE[data.dtype.kind])
+
+    def b_ArrayReshape(self, a):
+        if len(a) not in (2, 3) or not isinstance(a[0], np.ndarray):
+            self.bad('arrayreshape_bad_arguments')
+        if len(a) == 3:
+            self.lim('arrayreshape_padding')
+        if not isinstance(a[1], np.ndarray) or a[1].ndim != 1:
+            self.bad('arrayreshape_bad_dims', repr(a[1]))
+        dims = [self.integer(x, 'ArrayReshape dims') for x in a[1]]
+        if any(d < 0 for d in dims):
+            self.bad('arrayreshape_bad_dims', repr(dims))
+        flat, total = a[0].reshape(-1), int(np.prod(dims))
+        if flat.size != total:
+            self.note('mathematica: ArrayReshape pads with 0 / drops surplus elements')
+            new = np.zeros(total, flat.dtype)
+            new[:min(total, flat.size)] = flat[:total]
+            flat = new
+        return flat.reshape(dims)
+
+    def b_Length(self, a):
+        return int(a[0].shape[0]) if isinstance(a[0], np.ndarray) else 0
+
+    def b_Dimensions(self, a):
+        return np.array(a[0].shape if isinstance(a[0], np.ndarray) else (), dtype=np.int64)
+
+    def b_Flatten(self, a):
+        if len(a) != 1 or not isinstance(a[0], np.ndarray):
+            self.lim('flatten_form')
+        return a[0].reshape(-1)
+
+    def b_Transpose(self, a):
+        if len(a) != 1 or not isinstance(a[0], np.ndarray) or a[0].ndim < 2:
+            self.lim('transpose_form')
+        return np.swapaxes(a[0], 0, 1)
+
+
+# ---------------------------------------------------------------------------
+# Maple
+# ---------------------------------------------------------------------------
+
+_MAPLE_TYPES = {'integer[1]': 'i1', 'integer[2]': 'i2', 'integer[4]': 'i4', 'integer[8]': 'i8',
+                'float[4]': 'f4', 'float[8]': 'f8'}
+
+
+class MapleInterp(Interp):
+    lang = family = 'maple'
+
+    def ev_id(self, node, env):
+        name = node[1]
+        if name in env:
+            return env[name]
+        if name in ('true', 'false'):
+            return name == 'true'
+        return Sym(name)                 # an unassigned name evaluates to itself
+
+    def ev_list(self, node, env):
+        return [self.ev(n, env) for n in node[1][0]]
+
+    def ev_bin(self, node, env):
+        op = node[1]
+        a, b = self.ev(node[2], env), self.ev(node[3], env)
+        if op == '..':
+            return Rng(a, b)
+        if op == '=':
+            return ('eq', a, b)
+        if op == '::':
+            self.lim('type_assertion')
+        if isinstance(a, Sym) or isinstance(b, Sym):
+            self.rt('symbolic_operand', f'{a!r} {op} {b!r}: an unassigned name takes part in arithmetic')
+        return self.arith(op, a, b)
+
+    def ev_func(self, node, env):
+        return Func(node[2], node[3], self.env, 'maple')
+
+    def ev_assign(self, node, env):
+        _, lhs, rhs, _ = node
+        if lhs[0] != 'id':
+            self.lim('indexed_assignment')
+        v = self.ev(rhs, env)
+        env[lhs[1]] = v
+        return v
+
+    def ev_app(self, node, env):
+        _, f, args, br = node
+        target = self.ev(f, env)
+        vals = [(kw, self.ev(n, env)) for kw, n in args]
+        if isinstance(target, Sym):
+            if br == '[':
+                if any(kw for kw, _ in vals):
+                    self.bad('equation_in_index')
+                return Sym(f'{target.name}[{",".join(self.show(v) for _, v in vals)}]')
+            meth = {'FileTools[Binary][Read]': self.b_read, 'FileTools[Binary][Close]': self.b_close,
+                    'ArrayTools[Reshape]': self.b_reshape}.get(target.name)
+            if meth is None:
+                self.lim('unknown_function', target.name)
+            return meth(vals)
+        if any(kw for kw, _ in vals):
+            self.bad('equation_in_index_or_call')
+        vals = [v for _, v in vals]
+        if isinstance(target, Func):
+            if br != '(':
+                self.rt('procedure_indexed_with_brackets')
+            return self.call(target, vals)
+        if isinstance(target, list) and br == '[' and len(vals) == 1 and is_scalar(vals[0]):
+            k = self.integer(vals[0], 'list index')
+            if not 1 <= k <= len(target):
+                self.rt('index_out_of_range', f'list index {k}')
+            return target[k - 1]
+        if isinstance(target, np.ndarray):
+            return self.index(target, vals, f[1] if f[0] == 'id' else 'value', br)
+        self.lim('application_of', type(target).__name__)
+
+    def show(self, v):
+        return v.name if isinstance(v, Sym) else repr(v)
+
+    def call(self, fn, vals):
+        if len(vals) != len(fn.params):
+            self.rt('wrong_number_of_arguments', f'{len(vals)} for {len(fn.params)}')
+        for (name, typ), v in zip(fn.params, vals):
+            if typ is None:
+                continue
+            if typ[0] != 'id' or typ[1] not in ('integer', 'posint', 'nonnegint', 'numeric', 'anything'):
+                self.lim('parameter_type', repr(typ))
+            isint = isinstance(v, int) and not isinstance(v, bool)
+            ok = {'integer': isint, 'posint': isint and v > 0, 'nonnegint': isint and v >= 0,
+                  'numeric': is_scalar(v), 'anything': True}[typ[1]]
+            if not ok:
+                self.rt('invalid_input', f'{name} expects {typ[1]}, got {v!r}')
+        local = ChainMap({p[0]: v for p, v in zip(fn.params, vals)}, fn.env)
+        val = None
+        for s in fn.body:
+            val = self.exec(s, local)
+        return val
+
+    def range_positions(self, r, n):
+        a, b = self.range_ends(r)
+        if a is ALLV or b is ALLV:
+            self.lim('open_range')
+        if a < 0 or b < 0:
+            self.lim('negative_range_bound')
+        if b < a - 1:
+            self.note(f'maple: range {a}..{b} with upper bound below lower-1 taken as empty')
+        return np.arange(a, b + 1, dtype=np.int64)
+
+    def index(self, A, vals, what, br):
+        m = len(vals)
+        if m == 1 and A.ndim > 1 and br == '(':
+            self.note('maple: A(k) on a multi-dimensional Array taken as column-major linear indexing')
+            B = A.reshape(-1, order='F')
+        elif m != A.ndim:
+            self.note('maple: number of subscripts differs from the number of dimensions; taken as an error')
+            self.rt('wrong_number_of_subscripts', f'{m} subscripts for {A.ndim}-dimensional {what}')
+        else:
+            B = A
+        subs = []
+        for k, (v, d) in enumerate(zip(vals, B.shape)):
+            if isinstance(v, Sym):
+                self.rt('symbolic_subscript', v.name)
+            p = self.positions(v, d, f'subscript {k + 1}')
+            if isinstance(p, int) and p < 0:
+                self.lim('negative_subscript')
+            subs.append(p)
+        res, scal = self.take(B, subs, what)
+        if all(scal):
+            return res.reshape(-1)[0].item()
+        if any(scal):
+            self.note('maple: a scalar subscript next to range subscripts is taken to drop that dimension')
+        return res.reshape([d for d, s in zip(res.shape, scal) if not s], order='F')
+
+    # -- builtins ---------------------------------------------------------------
+    def b_read(self, vals):
+        pos = [v for kw, v in vals if kw is None]
+        opts = {kw: v for kw, v in vals if kw}
+        if len(pos) < 2 or len(pos) > 3 or not isinstance(pos[0], str):
+            if pos and not isinstance(pos[0], str):
+                self.lim('read_from_descriptor')
+            self.bad('read_bad_arguments', f'{len(pos)} positional arguments')
+        typ = pos[1]
+        if not isinstance(typ, Sym) or typ.name not in _MAPLE_TYPES:
+            self.bad('read_bad_type', f'{self.show(typ)} is not a hardware type')
+        count = self.integer(pos[2], 'Read count') if len(pos) == 3 else None
+        order = '='
+        for k, v in opts.items():
+            name = v.name if isinstance(v, Sym) else v
+            if k == 'byteorder':
+                if name not in ('little', 'big', 'native', 'network'):
+                    self.bad('read_bad_byteorder', repr(name))
+                order = {'little': '<', 'big': '>', 'native': '=', 'network': '>'}[name]
+            elif k == 'output':
+                if name not in ('Array', 'list'):
+                    self.bad('read_bad_output', repr(name))
+                if name == 'list':
+                    self.lim('read_output_list')
+            else:
+                self.bad('read_bad_option', k)
+        if pos[0] not in self.files:
+            self.files[pos[0]] = self.load(pos[0], order)    # Read opens the file implicitly
+        data = self.read(self.files[pos[0]], _MAPLE_TYPES[typ.name], count, order)
+        return data.astype(np.int64 if data.dtype.kind == 'i' else np.float64)
+
+    def b_close(self, vals):
+        if not vals or any(kw for kw, _ in vals):
+            self.bad('close_bad_arguments')
+        for _, v in vals:
+            if not isinstance(v, str):
+                self.lim('close_descriptor')
+            if v not in self.files:
+                self.note('maple: FileTools[Binary][Close] of a file that is not open taken as harmless')
+            self.files.pop(v, None)
+        return None
+
+    def b_reshape(self, vals):
+        if any(kw for kw, _ in vals):
+            self.lim('reshape_option')
+        vals = [v for _, v in vals]
+        if len(vals) < 2 or not isinstance(vals[0], np.ndarray):
+            self.bad('reshape_bad_arguments')
+        dims = vals[1] if len(vals) == 2 and isinstance(vals[1], list) else vals[1:]
+        if any(isinstance(d, Rng) for d in dims):
+            self.lim('reshape_range_bounds')
+        dims = [self.integer(d, 'Reshape dims') for d in dims]
+        if not dims or any(d < 0 for d in dims):
+            self.bad('reshape_bad_dims', repr(dims))
+        if int(np.prod(dims)) != vals[0].size:
+            self.rt('reshape_size_mismatch', f'{vals[0].size} elements into {dims}')
+        return vals[0].reshape(-1, order='F').reshape(dims, order='F')
+
+
+# ---------------------------------------------------------------------------
+# Public API
+# ---------------------------------------------------------------------------
+
+_INTERPS = {'R': RInterp, 'matlab': MatlabInterp, 'scilab': ScilabInterp, 'julia': JuliaInterp,
+            'julia_ver0': JuliaInterp, 'julia_ver1': JuliaInterp, 'idl': IdlInterp,
+            'mathematica': MathematicaInterp, 'maple': MapleInterp}
+_EXAMPLE_RE = re.compile(r'example\s+to\s+(?:read|get)\s+(?:the\s+)?(first|second|third)\s+'
+                         r'\(\s*k\s*=\s*(-?\d+)\s*\)\s+subarray')
+
+
+def _make(language, cwd):
+    if language not in _INTERPS:
+        raise StubLimitation(f'{language}:no_stub_for_language')
+    it = _INTERPS[language](cwd)
+    it.lang = language
+    return it
+
+
+def _final(it, v):
+    """Value of a variable as an ndarray with the language's own dimensions."""
+    fam = it.family
+    if isinstance(v, (Sym, Func, str, Rule, FileH, tuple, list, Rng)):
+        it.rt('value_is_not_an_array', f'{type(v).__name__} {v!r}'[:80])
+    if fam in ('matlab', 'scilab'):
+        return it.arr(v)
+    if fam == 'R':
+        return it.vec(v)
+    if fam == 'idl' and isinstance(v, np.ndarray):
+        return _strip_trailing(v)
+    return it.result_array(v)
+
+
+def _check_closed(it):
+    left = it.open_files()
+    if left:
+        raise IllFormed(f'{it.lang}:file_left_open: {left}')
+    return left
+
+
+def _lookup(it, name):
+    env = it.env
+    key = name.lower() if it.family == 'idl' else name
+    if key in env and env[key] is not _UNSET:
+        return True, env[key]
+    return False, None
+
+
+def run_array_snippet(language, code, cwd, varname='a'):
+    """Interpret the snippet of ``Array.readcode(language)``; see module docstring."""
+    it = _make(language, cwd)
+    stmts, _ = it.parse(code)
+    it.run(stmts)
+    bound, v = _lookup(it, varname)
+    if not bound:
+        it.bad('result_variable_unbound', f'the snippet does not bind {varname!r}')
+    _check_closed(it)
+    res = ArrayResult(language, _final(it, v), it.unverified, [])
+    res.paths = list(it.paths)
+    return res
+
+
+def _accessor_call(it, stmt_node):
+    """(name, literal k) of the first one-argument call of a user function in a statement."""
+    call_br = '[' if it.family == 'mathematica' else '('
+    for n in find_nodes(stmt_node, lambda n: n[0] == 'app' and n[3] == call_br and n[1][0] == 'id'
+                        and len(n[2]) == 1):
+        if isinstance(it.env.get(n[1][1]), Func):
+            arg = n[2][0][1]
+            return n[1][1], (arg[1] if arg[0] == 'num' else None)
+    return None, None
+
+
+def _native_k(it, k):
+    return float(k) if it.family in ('R', 'matlab', 'scilab') else int(k)
+
+
+def _call_accessor(it, name, k):
+    fn = it.env.get(name)
+    if not isinstance(fn, Func):
+        it.rt('accessor_not_defined', name)
+    if it.family == 'R':
+        return it.call(fn, [(None, _native_k(it, k))])
+    return it.call(fn, [_native_k(it, k)])
+
+
+def run_ragged_snippet(language, code, cwd, example_var='sa'):
+    """Interpret the snippet of ``RaggedArray.readcode(language)``; see module docstring."""
+    it = _make(language, cwd)
+    stmts, comments = it.parse(code)
+    res = RaggedResult(language, None, it.unverified)
+    res.example_var = example_var
+    ex_line = None
+    for line, text in comments:
+        m = _EXAMPLE_RE.search(text)
+        if m:
+            res.example_position, res.example_comment_k, ex_line = m.group(1), int(m.group(2)), line
+    pre = [s for s in stmts if ex_line is None or s.line <= ex_line]
+    example = [s for s in stmts if ex_line is not None and s.line > ex_line]
+    it.run(pre)
+    var = example_var.lower() if it.family == 'idl' else example_var
+    # drop any earlier binding so that `example_bound` reflects the example statement itself
+    for m in (it.env.maps if isinstance(it.env, ChainMap) else [it.env]):
+        m.pop(var, None)
+    accessor = 'getsubarray'
+    idl_if = None
+    if it.family == 'idl':
+        ifs = [s for s in example if s.node[0] == 'if']
+        idl_if = ifs[0] if ifs else None
+        for s in example:
+            if s.node[0] == 'assign' and s.node[1] == ('id', 'k') and s.node[2][0] == 'num':
+                res.example_call_k = s.node[2][1]
+    try:
+        for s in example:
+            it.exec(s, it.env)
+            if it.family != 'idl' and res.example_call_k is None:
+                name, k = _accessor_call(it, s.node)
+                if name:
+                    accessor, res.example_call_k = name, k
+    except LangRuntimeError as e:
+        res.example_error = str(e)
+    bound, v = _lookup(it, var)
+    res.example_bound = bound
+    if bound and res.example_error is None:
+        res.example_value = _final(it, v)
+    res.files_left_open = _check_closed(it)
+    res.paths = list(it.paths)
+    res.accessor = accessor if it.family != 'idl' else None
+
+    def get(k):
+        if it.family == 'idl':
+            if idl_if is None:
+                it.rt('accessor_not_defined', 'no IF statement after the example comment')
+            it.env['k'] = int(k)
+            it.env.pop(var, None)
+            it.exec(idl_if, it.env)
+            if var not in it.env:
+                it.rt('example_variable_unbound', var)
+            return _final(it, it.env[var])
+        return _final(it, _call_accessor(it, accessor, k))
+    res._getter = get
+    return res
